@@ -132,49 +132,79 @@ def spec_http_callbacks(ck):
 # =========================================================================== SOCKS listener callbacks
 
 def _socks_callback(ck, method):
+    """the SOCKS listener's reply callbacks with the REAL SocksResponse writer on a scripted client stream.
+    on_error can run before the request target was stored (bad credentials, unsupported command), so the connection's
+    target is any TargetAddress incl. Unknown there; on_connect runs after routing, so it is a real destination."""
+    from specs.codec import sym_target
     fn = ck.find(lambda: ck.db.method('Callback', method, trait='ContextCallback'), 'socks Callback::' + method)
+    ck.find(lambda: ck.db.method('SocksResponse', 'write_to'), 'SocksResponse::write_to')
     if fn is None:
         return
-    ex = ck.engine(loop_bound=4)
+    ex = ck.engine(loop_bound=6)
     ex.benign_havoc = re.compile(r'.')
     st = State()
     has_stream = z3.BitVec('client_stream_present', 64)
     ex.assume(st, z3.ULT(has_stream, BV(2, 64)))
+    scell = new_stream(ex, st, 'client', Bytes.from_terms([]))
+    tgt, parts = sym_target(ex, st, 'connection_target', allow_unknown=(method == 'on_error'), maxlen=40)
+    vn = ex.si.enums['TargetAddress']
+    ver = Int(z3.BitVec('version', 8), 8)
+    ex.assume(st, z3.Or(ver.t == BV(4, 8), ver.t == BV(5, 8)))
+    # a SOCKS4 client's own target is IPv4 or a domain (read_v4), never IPv6
+    ex.assume(st, z3.Implies(ver.t == BV(4, 8), z3.Not(z3.And(parts['kind'] == BV(vn.index('SocketAddr'), 64), parts['fam'] == BV(1, 64)))))
 
     def borrow_client_stream(ctx):
         opt = ctx.ex.si.enums['Option']
-        return Agg('Option', {}, has_stream, {1: {0: Ref(ctx.st.alloc(Opaque('IOBufStream', 'client')), ())}}, opt)
+        return Agg('Option', {}, has_stream, {1: {0: Ref(scell, ())}}, opt)
 
-    def write_to(ctx):
-        ctx.st.trace.append(('SocksResponse::write_to', ctx.ex.deref(ctx.st, ctx.args[0])))
-        return Future('sym_result', ['client_write'])
+    def target(ctx):
+        ctx.st.trace.append(('ctx.target()',))
+        return tgt
     ex.overrides.append((re.compile(r'Context::borrow_client_stream$'), borrow_client_stream))
-    ex.overrides.append((re.compile(r'SocksResponse::write_to(?:::<.*>)?$'), write_to))
-    ver = Int(z3.BitVec('version', 8), 8)
+    ex.overrides.append((re.compile(r'Context::target$'), target))
     me = Agg('Callback', {0: ver, 1: C.mk_option(ex, None)})
-    ex.inputs = {'version': ver, 'client_stream_present': has_stream}
+    ex.inputs = dict(parts, version=ver, client_stream_present=has_stream)
     args = [Ref(st.alloc(me), ()), Ref(st.alloc(Opaque('context::Context', 'ctx')), ())]
     if method == 'on_error':
         args.append(Opaque('easy_error::Error', 'the-error'))
-    if method == 'on_connect':
+    else:
         ex.assume(st, has_stream == BV(1, 64))    # on_connect is only invoked while the client stream is owned (process_request order)
     outs = run_async(ex, st, fn, args)
     for o, r in outs:
         if o.status != 'returned':
             continue
-        w = [e for e in o.trace if e[0] == 'SocksResponse::write_to']
+        strm = stream(o, scell)
+        w = strm.out
+        present = has_stream == BV(1, 64)
         if method == 'on_connect':
-            ex.prove(o, 'C06/socks/success-callback-sends-exactly-one-reply', len(w) == 1)
-            if w:
-                ex.prove(o, 'C06/socks/success-reply-code-is-0', w[0][1].fields[1].t == BV(0, 8))
-                ex.prove(o, 'C06/socks/reply-uses-the-clients-protocol-version', w[0][1].fields[0].t == ver.t)
+            complete = z3.If(ver.t == BV(5, 8), z3.UGE(w.len, BV(7, 64)), w.len == BV(8, 64))
+            ex.prove(o, 'C06/socks/success-callback-sends-a-complete-flushed-reply', z3.And(complete, strm.flushed == w.len))
+            ex.prove(o, 'C06/socks/success-reply-code', z3.If(ver.t == BV(5, 8), z3.And(w.at(0) == BV(5, 8), w.at(1) == BV(0, 8)),
+                                                              z3.And(w.at(0) == BV(0, 8), w.at(1) == BV(90, 8))))
         else:
-            present = has_stream == BV(1, 64)
-            ex.prove(o, 'C06/socks/failure-callback-sends-one-reply-iff-client-stream-still-owned', z3.And(len(w) <= 1, present == (len(w) == 1)))
-            if w:
-                ex.prove(o, 'C06/socks/failure-reply-code-is-nonzero', w[0][1].fields[1].t != BV(0, 8))
-                ex.prove(o, 'C06/socks/reply-uses-the-clients-protocol-version', w[0][1].fields[0].t == ver.t)
+            complete = z3.If(ver.t == BV(5, 8), z3.UGE(w.len, BV(7, 64)), w.len == BV(8, 64))
+            ex.prove(o, 'C06/socks/failure-callback-replies-iff-client-stream-still-owned', present == complete)
+            ex.prove(o, 'C06/socks/failure-reply-is-complete-and-flushed', z3.And(strm.flushed == w.len, z3.Or(w.len == BV(0, 64), complete)))
+            ex.prove(o, 'C06/socks/failure-reply-code', z3.Implies(z3.UGE(w.len, BV(2, 64)),
+                     z3.If(ver.t == BV(5, 8), z3.And(w.at(0) == BV(5, 8), w.at(1) != BV(0, 8)), z3.And(w.at(0) == BV(0, 8), w.at(1) == BV(91, 8)))))
+    for f in ex.findings:
+        if not hasattr(f, 'target'):
+            f.target = 'socks Callback::' + method
+    ck.plans.append(_socks_cb_replay_plan)
     ck.absorb(ex, 'socks Callback::' + method, [o for o, _ in outs])
+
+
+def _socks_cb_replay_plan(ob):
+    f = ob.finding
+    if f is None or not (ob.target or '').startswith('socks Callback::') or ob.label.startswith('C0'):
+        return None
+    from specs.codec import _target_args, _host_is_text
+    i = dict(f.inputs)
+    if not _host_is_text(i):
+        return None
+    a = _target_args(i)
+    a.update({'version': i.get('version', 5), 'cmd': 1 if ob.target.endswith('on_error') else 0})
+    return 'socks', {'driver': 'write_response', 'args': a}, lambda o: bool(o.get('panicked'))
 
 
 def spec_socks_callbacks(ck):
